@@ -115,11 +115,11 @@ size_t varintPFORSize(const varintPFORMeta *meta) {
     /* Exception count */
     size += varintTaggedLen(meta->exceptionCount);
 
-    /* Exceptions: each is (index, value) pair */
-    for (uint32_t i = 0; i < meta->exceptionCount; i++) {
-        size += varintTaggedLen(i);          /* worst case index */
-        size += varintTaggedLen(UINT64_MAX); /* worst case value */
-    }
+    /* Exceptions: each is (index, value) pair. An exception's index is its
+     * position in the input (anything below count), not its ordinal. */
+    size += (size_t)meta->exceptionCount *
+            (varintTaggedLen(meta->count) + /* worst case index */
+             varintTaggedLen(UINT64_MAX));  /* worst case value */
 
     return size;
 }
